@@ -71,6 +71,41 @@ func main() {
 			solveAll([]*Obligation{r.Ob}, 60, 0, 1)
 			fmt.Printf("%-5s %-40s A=%d B=%d prod=%d classes=%d %s %.2fs (total %.2fs) wit=%q\n", r.Ob.Result.Verdict, lm.Name, r.StatesA, r.StatesB, r.Product, r.Classes, r.Ob.Result.Solver, r.Ob.Result.Seconds, time.Since(t0).Seconds(), r.Witness)
 		}
+	case "witnesslists":
+		// self-test: every listed boundary input must be accepted by its oracle on the current tree
+		// (an input that fails on the unchanged code would be blamed on whatever change is under test)
+		p, err := loadProg("/repo", "/verif/spec")
+		if err != nil {
+			fmt.Fprintln(os.Stderr, "ENGINE-ERROR:", err)
+			os.Exit(2)
+		}
+		defer cleanupScratch()
+		o := checkOpts{verifDir: "/verif", repoDir: "/repo"}
+		bad := 0
+		for _, wl := range p.witnessLists() {
+			var jobs []replayJob
+			for i, in := range wl.Inputs {
+				jobs = append(jobs, replayJob{ID: fmt.Sprint(i), Kind: wl.Kind, Args: map[string]string{wl.Arg: in}})
+			}
+			rs, err := p.runHarness(o, wl.Pkg, jobs)
+			if err != nil {
+				fmt.Println("cannot run", wl.Func, err)
+				bad++
+				continue
+			}
+			nb := 0
+			for _, r := range rs {
+				if !r.OK {
+					nb++
+					fmt.Printf("FAILS ON THE CURRENT TREE: %s %s: %s\n", wl.Func, wl.Kind, r.Detail)
+				}
+			}
+			fmt.Printf("%s: %d inputs, %d fail\n", wl.Func, len(rs), nb)
+			bad += nb
+		}
+		if bad > 0 {
+			os.Exit(1)
+		}
 	case "stab":
 		// govc stab N KEY...: solve every obligation of the functions under N different solver seeds,
 		// without retries, and list the obligations that are not discharged under some seed
